@@ -94,6 +94,9 @@ def main():
             return finish(res, src, keep=False)
         # demo with the patch
         run = open(os.path.join(src, "demo", "RUN.txt")).read().strip().split("\n")[0]
+        run = run.replace("<demo>", os.path.join(src, "demo"))
+        run = re.sub(r"\s+\(env:.*\)\s*$", "", run)
+        run = re.sub(r"\s+#.*$", "", run)
         demo_files = []
         for root, _, files in os.walk(os.path.join(src, "demo")):
             for f in files:
@@ -127,7 +130,7 @@ def main():
             missing = suite(wt)
             res["suite_missing_with_patch"] = missing[:20]
         # without the patch
-        sh("git checkout -- . && git clean -fdq -e parser/goyacc/goyacc", cwd=wt)
+        sh("git reset -q --hard HEAD && git clean -fdq -e parser/goyacc/goyacc", cwd=wt)
         placed = place()
         rc3, o3 = sh(run, cwd=wt, timeout=900)
         res["demo_passes_without_patch"] = rc3 == 0
